@@ -1,6 +1,7 @@
 import RdsProofs.Reach
 import RdsProofs.LinkProofs
 import RdsProofs.TableC11
+import RdsProofs.AuditFrames
 /-!
 # Property C11 — ECC and country follow group 1A variant 0 and the IEC 62106-4 table
 
@@ -18,6 +19,9 @@ A0–A6/D0–D4/E0–E5/F0–F4 and for PI unknown / nibble 0; `C11_range`: ever
 -- THEOREM: RDS.C11_range
 -- THEOREM: RDS.C11_unknown
 -- THEOREM: RDS.eccOk
+-- THEOREM: RDS.C11_frame
+-- THEOREM: RDS.C11_frame_step
+-- THEOREM: RDS.C11_frame_history
 namespace RDS
 
 /-- C11 for every history and every next call -/
